@@ -47,6 +47,8 @@ func (c *Ctx) hostedMessages() map[string]*types.Named {
 }
 
 func runC07(c *Ctx, r *Report) {
+	c07ExpansionIdempotent(c, r)
+	c07EveryMessageWritten(c, r)
 	roots, missing := c.rootFuncs(encodeRoots)
 	for _, m := range missing {
 		r.fail("C07-roots", m, "", "not found")
@@ -521,4 +523,180 @@ var c07ReflectAudit = map[string]string{
 	"writeField/Interface":       "exported message field",
 	"writeField/Len":             "array flag <-> slice type (C15-3)",
 	"writeField/Index":           "i runs below min(Len(), length)",
+}
+
+// c07ExpansionIdempotent (R4): decoding Encode's output runs expandComponents on messages whose
+// destination fields were already filled by the first decode and written out as ordinary fields.
+// The second decode yields the same File only if expansion is idempotent, for which two structural
+// conditions are necessary (each a clause of the C18 body lint, reported here under C07's id):
+// an expansion depends on nothing but its own source's validity (not on another source being
+// invalid), and a destination that is itself a source is filled before its own components are
+// taken. The lint runs on a scratch report; only those two clauses are taken over.
+func c07ExpansionIdempotent(c *Ctx, r *Report) {
+	info := c.fit.TypesInfo
+	scratch := newReport(r.p, r.tier, r.verif)
+	sc := c.fit.Types.Scope()
+	n := 0
+	for _, name := range sc.Names() {
+		tn, ok := sc.Lookup(name).(*types.TypeName)
+		if !ok {
+			continue
+		}
+		fn := c.fn(c.fit, name+".expandComponents")
+		fd := c.decl(fn)
+		if fn == nil || fd == nil {
+			continue
+		}
+		st, _ := tn.Type().Underlying().(*types.Struct)
+		c18Body(c, scratch, info, name, fd, st)
+		n++
+	}
+	bad := 0
+	for _, o := range scratch.obls {
+		if o.Status == "discharged" {
+			continue
+		}
+		if strings.Contains(o.Detail, "else branch of the guard") || strings.Contains(o.Detail, "after the components of") {
+			bad++
+			r.fail("C07-R4-expansion-idempotent", o.Key, o.Pos, o.Detail+" — a decode/Encode/decode round trip then differs from the first decode (the destination is written out and read back, and the expansion takes the other branch)")
+		}
+	}
+	r.check(bad == 0 && n >= 8, "C07-R4-expansion-idempotent", "scan", "", fmt.Sprintf("%d expandComponents bodies: every expansion depends only on its own source's validity and destinations that are sources are filled first", n), "expansion order/guard clauses violated (see above)")
+}
+
+// c07EveryMessageWritten (R5): Decode keeps a message whose known fields are all invalid; the
+// re-encoded file has the same message counts only if Encode writes a record for every message
+// it visits. (a) encodeDefAndDataMesg: every success return is behind the writeMesg call or
+// under the "nil pointer, nothing there" test; (b) encodeFile: in the loop over the elements of a
+// list, writeMesg is on every path round the loop and the loop is left only through its own
+// header test or an error return. (c) getEncodeMesgDef lists the profile's own rows (the value
+// appended is the row getFieldBySindex returned, not a modified copy): declared sizes are the
+// profile's, for every message of a group alike.
+func c07EveryMessageWritten(c *Ctx, r *Report) {
+	isWrite := func(ci ssa.CallInstruction) bool {
+		f := ci.Common().StaticCallee()
+		return f != nil && f.Name() == "writeMesg" && fnPkgPath(f) == modPath
+	}
+	if fn := c.ssaFn(c.fn(c.fit, "encoder.encodeDefAndDataMesg")); fn != nil {
+		var w ssa.CallInstruction
+		for _, ci := range allCalls(fn) {
+			if isWrite(ci) {
+				w = ci
+			}
+		}
+		ok := w != nil
+		where := ""
+		n := 0
+		if ok {
+			for _, ret := range c.successReturns(fn) {
+				n++
+				behind := w.Block() == ret.Block() || w.Block().Dominates(ret.Block())
+				nothing := domByBoolEdge(fn, ret.Block(), false, func(v ssa.Value) bool {
+					call, isC := v.(*ssa.Call)
+					return isC && call.Common().StaticCallee() != nil && call.Common().StaticCallee().String() == "(reflect.Value).IsValid"
+				})
+				if !behind && !nothing {
+					ok = false
+					where = c.pos(ret.Pos())
+				}
+			}
+		}
+		r.check(ok && n > 0, "C07-R5-every-message-written", "encodeDefAndDataMesg", c.pos(fn.Pos()), "success only behind writeMesg, or for a nil message pointer", "encodeDefAndDataMesg reports success at "+where+" without having written the message (and it is not the nil-pointer case): a message Decode kept is missing after re-encoding")
+	} else {
+		r.fail("C07-R5-every-message-written", "encodeDefAndDataMesg", "", "not found")
+	}
+	if fn := c.ssaFn(c.fn(c.fit, "encoder.encodeFile")); fn != nil {
+		succ := map[*ssa.BasicBlock]bool{}
+		for _, ret := range c.successReturns(fn) {
+			succ[ret.Block()] = true
+		}
+		n := 0
+		for _, ci := range allCalls(fn) {
+			if !isWrite(ci) {
+				continue
+			}
+			n++
+			// innermost loop around the call
+			var body map[*ssa.BasicBlock]bool
+			var hdr *ssa.BasicBlock
+			for _, h := range fn.Blocks {
+				b, latches := loopBody(h)
+				if len(latches) == 0 || !b[ci.Block()] {
+					continue
+				}
+				if body == nil || len(b) < len(body) {
+					body, hdr = b, h
+				}
+			}
+			if hdr == nil {
+				r.fail("C07-R5-every-message-written", "encodeFile/list-loop", c.pos(ci.Pos()), "writeMesg for list elements is not inside a loop")
+				continue
+			}
+			bad := ""
+			for _, p := range hdr.Preds {
+				if body[p] && !(ci.Block() == p || ci.Block().Dominates(p)) {
+					bad = "an iteration can go round without writing its message (a path to the loop's back edge at " + c.pos(firstPos(p)) + " avoids writeMesg)"
+				}
+			}
+			for b := range body {
+				if b == hdr {
+					continue
+				}
+				for _, s := range b.Succs {
+					if body[s] {
+						continue
+					}
+					// leaving the loop from inside: only towards an error return
+					if !leadsOnlyToReturn(s) || reachesAny(s, succ) {
+						bad = "the loop over the list is left early at " + c.pos(firstPos(s)) + " without an error: the remaining messages of the list are not written"
+					}
+				}
+			}
+			r.check(bad == "", "C07-R5-every-message-written", "encodeFile/list-loop", c.pos(ci.Pos()), "every element of a list is written: writeMesg is on every path round the loop, which is left only by its header test or an error", bad)
+		}
+		r.need("writeMesg sites in encodeFile", n, 1)
+	}
+	if fn := c.ssaFn(c.fn(c.fit, "getEncodeMesgDef")); fn != nil {
+		n, bad := 0, ""
+		for _, b := range fn.Blocks {
+			for _, ins := range b.Instrs {
+				st, ok := ins.(*ssa.Store)
+				if !ok {
+					continue
+				}
+				ia, ok := st.Addr.(*ssa.IndexAddr)
+				if !ok {
+					continue
+				}
+				al, ok := ia.X.(*ssa.Alloc)
+				if !ok || !strings.Contains(al.Type().String(), ".field") || al.Comment != "varargs" {
+					continue
+				}
+				n++
+				call, isCall := st.Val.(*ssa.Call)
+				if !isCall || call.Common().StaticCallee() == nil || call.Common().StaticCallee().Name() != "getFieldBySindex" {
+					bad = stripAddrs(pathOf(st.Val))
+				}
+			}
+		}
+		r.check(bad == "" && n > 0, "C07-R5-every-message-written", "getEncodeMesgDef/profile-rows", c.pos(fn.Pos()), "the definition lists the rows getFieldBySindex returned from the profile table", "getEncodeMesgDef appends "+bad+" instead of the profile's own row: a per-message copy with a different length makes the messages of one list disagree about the field's size, and the group's shared definition truncates or misreads the others")
+	}
+}
+
+func reachesAny(b *ssa.BasicBlock, targets map[*ssa.BasicBlock]bool) bool {
+	seen := map[*ssa.BasicBlock]bool{}
+	q := []*ssa.BasicBlock{b}
+	for len(q) > 0 {
+		x := q[0]
+		q = q[1:]
+		if seen[x] {
+			continue
+		}
+		seen[x] = true
+		if targets[x] {
+			return true
+		}
+		q = append(q, x.Succs...)
+	}
+	return false
 }
